@@ -61,8 +61,9 @@ Start == /\ Usable /\ status = "uninitialized"
 \* the pure API builds a fresh probe per call: history is forgotten and the status
 \* is forced to "running" (helpers.transition)
 PackSend == IF Engine = "pure"
-            THEN [Pack EXCEPT !.hist = [p \in DOMAIN hist |-> {}], !.status = "running", !.output = NONE]
+            THEN [Pack EXCEPT !.hist = [p \in DOMAIN hist |-> {}], !.output = NONE]
             ELSE Pack
+PureIgnores == Engine = "pure" /\ status # "running"    \* done / error snapshots are returned unchanged
 
 \* An event for which no active state declares a matching `on` key takes exactly the path of
 \* any other such event (no candidate from `on`; eventless candidates are considered alike), so
@@ -71,7 +72,8 @@ Relevant == {e \in D.events : e = "__nope__" \/ \E s \in config : MatchingKeys(s
 
 Send == /\ Usable /\ status # "uninitialized"
         /\ \E ev \in Relevant : \E gv \in GVs :
-              Apply(SendStep(PackSend, ev, gv, Engine), [op |-> "send", ev |-> ev, gv |-> gv])
+              Apply(IF PureIgnores THEN Pack ELSE SendStep(PackSend, ev, gv, Engine),
+                    [op |-> "send", ev |-> ev, gv |-> gv])
 
 Can == /\ WithCan /\ Usable /\ status # "uninitialized"
        /\ \E ev \in Relevant : \E gv \in GVs :
@@ -90,12 +92,45 @@ Proj(c, h, s, x, o, e) == [config |-> c, hist |-> h, status |-> s, ctx |-> x, ou
 PreS  == Proj(config, hist, status, ctx, output, errv)
 PostS == Proj(config', hist', status', ctx', output', errv')
 
+--------------------------------------------------------------------------
+(* C05 on the Impl layer: the three engines started from the same abstract state and given the   *)
+(* same step must agree on configuration, context, status, output and on the ordered action     *)
+(* lists (executed, with their triggering event, for sync/async; reported for the pure API).    *)
+(* A PureSnapshot carries configuration, context, status, output only.                           *)
+
+StepOn(eng, step) ==
+  LET pk == IF eng = "pure" /\ step.op = "send"
+            THEN [Pack EXCEPT !.hist = [p \in DOMAIN hist |-> {}], !.output = NONE]
+            ELSE Pack
+  IN CASE step.op = "start" -> StartStep(pk, step.gv, eng)
+       [] step.op = "send" /\ eng = "pure" /\ status # "running" -> Pack
+       [] step.op = "send"  -> SendStep(pk, step.ev, step.gv, eng)
+       [] OTHER -> pk
+ActsOf(o) == SelectSeq(o, LAMBDA e : e.k = "act")
+ActNames(o) == LET q == ActsOf(o) IN [i \in 1..Len(q) |-> q[i].a]
+AxNames(o) == LET q == SelectSeq(o, LAMBDA e : e.k = "ax") IN [i \in 1..Len(q) |-> q[i].a]
+RecNames(o) == LET q == SelectSeq(o, LAMBDA e : e.k = "rec") IN [i \in 1..Len(q) |-> q[i].a]
+SameState(x, y) == x.config = y.config /\ x.ctx = y.ctx /\ x.status = y.status /\ x.output = y.output
+
+C05Spec(step) ==
+  IF step.op \notin {"start", "send"} THEN {}
+  ELSE LET s == StepOn("sync", step)
+           a == StepOn("async", step)
+           p == StepOn("pure", step)
+       IN IF s.err # NoErr \/ a.err # NoErr \/ p.err # NoErr THEN {}
+          ELSE Tag(SameState(s, a), "sync_async_state")
+               \cup Tag(ActNames(s.out) = ActNames(a.out), "sync_async_action_order")
+               \cup Tag(ActsOf(s.out) = ActsOf(a.out) \/ ActNames(s.out) # ActNames(a.out), "sync_async_action_event")
+               \cup Tag(SameState(s, p), "sync_pure_state")
+               \cup Tag(AxNames(s.out) = RecNames(p.out), "sync_pure_actions")
+
 On(p, v) == IF p \in PropSet THEN v ELSE {}
 Props == [C01 |-> On("C01", C01(PreS, lastStep', PostS, out')),
           C02 |-> On("C02", C02(PreS, lastStep', PostS, out')),
           C03 |-> On("C03", C03(PreS, lastStep', PostS, out')),
           C10 |-> On("C10", C10(PreS, lastStep', PostS, out', Engine)),
-          C11 |-> On("C11", C11(PreS, lastStep', PostS, out', Engine))]
+          C11 |-> On("C11", C11(PreS, lastStep', PostS, out', Engine)),
+          C05 |-> On("C05", C05Spec(lastStep'))]
 
 Emit == PrintT(ToJson([mi |-> mi, from |-> PreS, step |-> lastStep', to |-> PostS, dirty |-> dirty',
                        out |-> out', prop |-> Props]))
